@@ -3,6 +3,19 @@
 import json, sys
 pid = sys.argv[1]
 wt = sys.argv[2]
+names = sys.argv[3] if len(sys.argv) > 3 else "A,B"
+n1, n2 = names.split(",")
+taken = ""
+try:
+    import glob, os
+    lines = []
+    for f in sorted(glob.glob('/verif/seeded/%s-*/meta.json' % pid)):
+        m = json.load(open(f))
+        lines.append("  - " + m["breaks"])
+    if lines:
+        taken = "\nOther people already produced the following changes for this property; yours must use DIFFERENT mechanisms (different code site or different kind of mistake):\n" + "\n".join(lines) + "\n"
+except Exception:
+    pass
 for l in open('/verif/properties.jsonl'):
     p = json.loads(l)
     if p['id'] == pid:
@@ -17,13 +30,14 @@ The following semantic property of hypersdk currently holds (or is intended to h
 
 {json.dumps({k: p[k] for k in ('id','title','statement','quantifier','anchors')}, indent=1)}
 
-Task: produce TWO different, independent changes (call them A and B) to the non-test Go source of hypersdk in that worktree, each of which BREAKS this property, while
+Task: produce TWO different, independent changes (call them {n1} and {n2}) to the non-test Go source of hypersdk in that worktree, each of which BREAKS this property, while
   * the repository still compiles (go build ./... and go vet of the touched packages), and
   * the existing tests of the touched packages (and of packages that directly depend on them, e.g. ./chain/... ./vm/... ./snow/... where relevant) still pass unchanged - do not edit or delete any existing test;
   * the change looks like a plausible mistake or an innocent-looking refactor/optimisation a real developer could make (off-by-one at a boundary, dropped/misplaced lock or wake-up, wrong order of two steps, missed cleanup on an error path, wrong condition on a rare branch, lost update, stale cache...), NOT an obviously sabotaged line;
   * the break needs something SPECIFIC to manifest: a particular goroutine interleaving, a crash or fault at a particular point, a multi-step sequence of operations, an unusual input/configuration, or two cooperating sites that each look fine alone. It must NOT be exposed at once by ordinary use (otherwise the existing tests would fail).
   * do not touch lines containing `verifhook.` (instrumentation) and do not modify files under internal/verifhook.
 
+{taken}
 For each change provide a demonstration: a new Go test file (or small program) that FAILS with the change applied and PASSES without it, showing the property violation concretely (if an interleaving is needed, the demonstration may force it with sleeps/channels/hooks placed in the test, or loop until it happens).
 
 Environment (sealed sandbox, no network). In every shell call first run:
@@ -31,8 +45,9 @@ Environment (sealed sandbox, no network). In every shell call first run:
 and use `go` (1.26.8). Building the whole repo cold takes a few minutes; prefer per-package builds/tests, e.g. `go test -count=1 ./internal/executor/`. Do not run the entire test suite of the repo (25 min); run the tests of the touched packages and their direct dependents only.
 
 Deliverables, written into {wt}/MUTANTS/ (create it):
-  A.diff, B.diff    - `git diff` of each change alone against the worktree's HEAD (source change only, not the demo)
-  A_demo_test.go, B_demo_test.go (or demo programs) - plus a line at the top of each saying in which package directory it must be placed and the command to run it
+  {n1}.diff, {n2}.diff    - `git diff` of each change alone against the worktree's HEAD (source change only, not the demo)
+  {n1}_demo_test.go, {n2}_demo_test.go (or demo programs) - plus a line at the top of each saying in which package directory it must be placed and the command to run it
   README.md         - for each change: what it breaks, what exactly is needed for it to manifest (interleaving / fault / sequence / input), which existing tests you ran and that they pass, and that the demo fails with / passes without the change.
 Never use `git stash` (the stash is shared between worktrees of other people working in parallel); use `git diff > file` and `git checkout -- .` instead. Leave the worktree's tracked files UNMODIFIED at the end (git checkout -- . after saving the diffs), with only MUTANTS/ as untracked content.
+Extra notes: in package x/dsmr the existing test TestGetChunkSignature_PersistAttestedBlocks hangs even on the unmodified tree (known, unrelated): run that package with `-skip TestGetChunkSignature_PersistAttestedBlocks -timeout 300s`. Other people work in sibling worktrees at the same time: the machine is shared, so a test that passes alone may time out under load - re-run before concluding.
 Reply with a 10-line summary of the two changes.""")
